@@ -153,6 +153,31 @@ every stretch of its `AllowIP` calls from instant `s` to instant `e`,
 def holdsRL (cfg : RateLimitConfig) (U : Nat) (es : List (Nat × REv)) (obs : List (Option Bool)) : Bool :=
   obs.length == es.length && (ipsOf es).all (fun ip => stretchesOK cfg U (allowsOf ip es obs))
 
+/-- an answer of address `ip` (a whole `AllowIP`, or the `Take` section of one in flight) -/
+def obsFor (ip : Nat) (e : XEv) (o : Option Bool) : Option Bool :=
+  match e, o with
+  | .allow a, some b => if a = ip then some b else none
+  | .take a _, some b => if a = ip then some b else none
+  | _, _ => none
+
+def xAllowsOf (ip : Nat) : List (Nat × XEv) → List (Option Bool) → List (Nat × Bool)
+  | e :: es, o :: os =>
+    match obsFor ip e.2 o with
+    | some b => (e.1, b) :: xAllowsOf ip es os
+    | none => xAllowsOf ip es os
+  | _, _ => []
+
+def xIps : List (Nat × XEv) → List Nat
+  | [] => []
+  | (_, .allow a) :: es => a :: xIps es
+  | (_, .take a _) :: es => a :: xIps es
+  | _ :: es => xIps es
+
+/-- **Rate and burst, with `AllowIP` calls overlapping**: the same bound as `holdsRL`, over the
+answers of whole calls and of calls cut into their critical sections. -/
+def holdsRLX (cfg : RateLimitConfig) (U : Nat) (es : List (Nat × XEv)) (obs : List (Option Bool)) : Bool :=
+  obs.length == es.length && (xIps es).all (fun ip => stretchesOK cfg U (xAllowsOf ip es obs))
+
 /-! ## D. handshake -/
 
 structure HLedger where
